@@ -37,7 +37,7 @@ static struct {
 	int closed_call; uint64_t close_stamp; int stop;
 	int peer_done, client_done;
 	unsigned char *file_model; size_t file_size;
-	int hard_error_injected, cleanup_before_cancelled;
+	int hard_error_injected, cleanup_before_cancelled, peer_hangs_up, peer_hung_up;
 } X;
 
 static const char *never_done_clause(void);
@@ -114,6 +114,12 @@ static void *peer_thread(void *arg) {
 			if (r == 0) break;
 			if (r < 0) { if (errno == EAGAIN || errno == EINTR) continue; break; }
 			if (X.npeer_got + (size_t)r <= MAXBYTES) { memcpy(X.peer_got + X.npeer_got, buf, (size_t)r); X.npeer_got += (size_t)r; }
+			if (X.peer_hangs_up && X.npeer_got >= X.peer_total) {
+				// the consumer goes away with the channel's writes possibly still in flight
+				h_log("peer closes its (reading) end after %zu bytes", X.npeer_got);
+				sim_io_peer_closed(X.fd); sim_io_close(X.peer_fd); X.peer_fd = -1; X.peer_hung_up = 1;
+				break;
+			}
 			sim_sleep_ns(X.peer_pause);
 		}
 	}
@@ -192,7 +198,7 @@ static bool io_cleaned(void *c) { (void)c; return X.cleanup_count > 0; }
 
 static void judge(void) {
 	unsigned char *log; size_t nlog = sim_io_log(X.fd, &log);
-	int hard = sim_st.iofault[IOF_EIO] + sim_st.iofault[IOF_ENOSPC] + sim_st.iofault[IOF_EPIPE] > 0 || sim_st.fired[K_ALLOC] > 0;
+	int hard = sim_st.iofault[IOF_EIO] + sim_st.iofault[IOF_ENOSPC] + sim_st.iofault[IOF_EPIPE] > 0 || sim_st.fired[K_ALLOC] > 0 || X.peer_hung_up;
 	if (X.is_stream && X.is_read) {
 		// delivered data of the operations, concatenated in submission order, is exactly what was consumed
 		size_t pos = 0;
@@ -271,6 +277,7 @@ static void c14_run(void) {
 	X.hq_serial = g_chance(2, 3);
 	X.peer_total = g_chance(1, 5) ? 0 : (size_t)g_range(1, big ? 30000 : 9000);
 	X.peer_chunk = (size_t)g_range(1, 3000); X.peer_pause = (uint64_t)g_range(0, 120) * USEC; X.peer_closes = g_chance(2, 3);
+	X.peer_hangs_up = !X.is_read && g_chance(1, 4);
 	X.nops = g_range(1, 6);
 	int idx = 0;
 	for (int i = 0; i < X.nops; i++) {
@@ -284,7 +291,8 @@ static void c14_run(void) {
 		else op->kind = IO_STOP;
 		op->got = malloc(MAXBYTES);
 	}
-	h_sample("%s; handlers on a %s queue; peer: %zu bytes in chunks of %zu every %lu us%s\n", chn[X.kind], X.hq_serial ? "serial" : "global", X.peer_total, X.peer_chunk, (unsigned long)(X.peer_pause / 1000), X.peer_closes ? ", then closes" : ", stays open");
+	h_sample("%s; handlers on a %s queue; peer: %zu bytes in chunks of %zu every %lu us%s\n", chn[X.kind], X.hq_serial ? "serial" : "global", X.peer_total, X.peer_chunk, (unsigned long)(X.peer_pause / 1000),
+		X.is_read ? (X.peer_closes ? ", then closes" : ", stays open") : (X.peer_hangs_up ? ", then closes its reading end" : ", keeps reading"));
 	for (int i = 0; i < X.nops; i++) if (op_on(X.ops[i].idx)) {
 		ioop *op = &X.ops[i];
 		h_sample(" #%d %s", op->idx, ion[op->kind]);
@@ -297,6 +305,11 @@ static void c14_run(void) {
 	if (X.kind == CH_PIPE_READ || X.kind == CH_PIPE_WRITE) { if (pipe2(fds, O_NONBLOCK)) h_viol("harness", "pipe"); if (X.kind == CH_PIPE_WRITE) { int t = fds[0]; fds[0] = fds[1]; fds[1] = t; } }
 	else if (socketpair(AF_UNIX, SOCK_STREAM | SOCK_NONBLOCK, 0, fds)) h_viol("harness", "socketpair");
 	X.fd = fds[0]; X.peer_fd = fds[1];
+	// small kernel buffers, so that writes of a few kilobytes really meet a full pipe / socket (partial writes, EAGAIN)
+	if (g_chance(3, 4)) {
+		if (X.kind == CH_PIPE_READ || X.kind == CH_PIPE_WRITE) fcntl(X.is_read ? X.peer_fd : X.fd, F_SETPIPE_SZ, 4096);
+		else { int sz = 2304; setsockopt(X.fd, SOL_SOCKET, SO_SNDBUF, &sz, sizeof sz); setsockopt(X.peer_fd, SOL_SOCKET, SO_SNDBUF, &sz, sizeof sz); setsockopt(X.fd, SOL_SOCKET, SO_RCVBUF, &sz, sizeof sz); setsockopt(X.peer_fd, SOL_SOCKET, SO_RCVBUF, &sz, sizeof sz); }
+	}
 	X.peer_got = malloc(MAXBYTES);
 	sim_io_watch(X.fd, 1);
 	X.hq = X.hq_serial ? dispatch_queue_create("io-handlers", NULL) : dispatch_get_global_queue(0, 0);
@@ -313,6 +326,16 @@ static void c14_run(void) {
 	h_end_fault_phase(th + 1, 1, 2 * NSEC);
 	// operations that can still complete on their own get a while; then the channel is closed (STOP if it must be)
 	if (h_wait_until(io_done, NULL, 300 * MSEC)) {
+		if (X.peer_hung_up) {
+			// the reader is gone: pending writes can never make progress and must be completed with an error
+			int pending_barrier = 0;
+			for (int i = 0; i < X.nops; i++) if (X.ops[i].kind == IO_BARRIER && X.ops[i].submitted && !X.ops[i].barrier_start) pending_barrier = 1;
+			if (h_wait_until(io_done, NULL, LIVENESS_NS) && !pending_barrier) {
+				char b[200]; size_t o = 0;
+				for (int i = 0; i < X.nops; i++) { ioop *op = &X.ops[i]; if (op->submitted && !op->done_count && o + 40 < sizeof b) o += (size_t)snprintf(b + o, sizeof b - o, "%s #%d never saw done; ", ion[op->kind], op->idx); }
+				h_stuck("hangup-not-delivered", b);
+			}
+		}
 		if (!X.closed_call || !X.stop) { h_log("controller: close(STOP)"); X.closed_call = 1; X.stop = 1; X.close_stamp = h_stamp(); dispatch_io_close(X.ch, DISPATCH_IO_STOP); }
 		// cancellation by STOP needs no I/O: 5 simulated seconds are ample (and an interval timer may be ticking)
 		if (h_wait_until(io_done, NULL, 5 * NSEC)) {
